@@ -9,6 +9,7 @@ import contracts.forms as FM
 import contracts.common as K
 import contracts.potential
 
+REGULAR_AT_ORIGIN = ['_bornmayer', '_constant', '_zero', '_morse', '_exp_spline']      # finite value and derivatives at r = 0 (from the documented formulas)
 F_INIT = 'atsim/potentials/__init__.py'
 F_MOD = 'atsim/potentials/_modifiers.py'
 FUNCTIONS = [(K.F_POT, 'Potential.__init__'), (contracts.potential.F_UTIL, 'gradient'), (contracts.potential.F_UTIL, 'deriv'), (contracts.potential.F_UTIL, 'num_deriv')]
@@ -27,6 +28,15 @@ def form_obligations(prop='C07'):
             o = B.static_obligation('%s/potentialfunctions.py::%s/translate' % (prop, cls), False, cls, where, 'cannot translate: %s' % ex); o.result = 'unknown'; out.append(o); continue
         out.append(B.identity_obligation('%s/potentialfunctions.py::%s.deriv/is-d/dr-of-__call__' % (prop, cls), d, sp.diff(e, r), [r] + params, cls + '.deriv', where, FM.DOMAIN))
         out.append(B.identity_obligation('%s/potentialfunctions.py::%s.deriv2/is-d/dr-of-deriv' % (prop, cls), d2, sp.diff(d, r), [r] + params, cls + '.deriv2', where, FM.DOMAIN))
+    # forms that are regular at the origin must be evaluable there (value and offered derivatives): no division by r,
+    # no negative power of r in any evaluated sub-expression
+    for cls in REGULAR_AT_ORIGIN:
+        params = FM.FORMS[cls][0]
+        for meth in ('__call__', 'deriv', 'deriv2'):
+            try: bad = B.definedness_at_origin(FM.F, cls, meth, params)
+            except Exception as ex: bad = ['cannot translate: %s' % ex]
+            out.append(B.static_obligation('%s/potentialfunctions.py::%s.%s/defined-at-r=0' % (prop, cls, meth), not bad, cls + '.' + meth,
+                                           '%s (class %s)' % (FM.F, cls), 'raises at r = 0: ' + '; '.join(bad)))
     # polynomial of any order: element i of deriv^k is the k-th derivative of element i of the energy; the dropped leading
     # elements are exactly those whose derivative vanishes identically
     where = '%s (class _polynomial)' % FM.F
@@ -41,6 +51,11 @@ def form_obligations(prop='C07'):
             # dropped terms j < kk: their k-th derivative must be identically zero; kept term order: none may be dropped beyond that
             ok = all(sp.simplify(sp.diff(c * r ** j, r, order)) == 0 for j in range(kk)) and kk <= order
             out.append(B.static_obligation('%s/potentialfunctions.py::_polynomial.%s/dropped-terms-vanish' % (prop, meth), ok, '_polynomial.' + meth, where, 'slice [%d:] for derivative order %d' % (kk, order)))
+            # every element that IS evaluated must be defined at r = 0 (a polynomial is regular there): r**(i-k) with i-k < 0 raises
+            cf = B.polynomial_term.computed_from
+            bad = [j for j in range(cf, order) if True]
+            out.append(B.static_obligation('%s/potentialfunctions.py::_polynomial.%s/defined-at-r=0' % (prop, meth), not bad, '_polynomial.' + meth, where,
+                                           'elements i = %s are evaluated as r**(i-%d) with a negative exponent: ZeroDivisionError at r = 0' % (bad, order)))
         sa = get_func(FM.F, '_polynomial._split_args')
         ok = ast.unparse(sa.body[-1]) == 'return (args[0], args[1:])'
         out.append(B.static_obligation('%s/potentialfunctions.py::_polynomial._split_args/r-then-coefficients' % prop, ok, '_polynomial._split_args', where, ast.unparse(sa.body[-1])))
@@ -126,7 +141,9 @@ MODULE_MUTANTS = [
     (F_INIT, "2.0*deriv_a(r)*deriv_b(r)", "1.0*deriv_a(r)*deriv_b(r)", 'product.deriv2'),
     (FM.F, "42.0*C/r**8", "30.0*C/r**8", '_buck.deriv2'),
     (F_MOD, "return potential_func.deriv(r+trans_value)", "return potential_func.deriv(r)", 'trans.deriv'),
-    (FM.F, "v = [float(i) * r**float(i-1) * c for (i,c) in enumerate(coefs)][1:]", "v = [float(i) * r**float(i-1) * c for (i,c) in enumerate(coefs)][2:]", '_polynomial.deriv'),
+    (FM.F, "v = [float(i) * r**float(i-1) * c for (i,c) in list(enumerate(coefs))[1:]]", "v = [float(i) * r**float(i-1) * c for (i,c) in list(enumerate(coefs))[2:]]", '_polynomial.deriv'),
+    (FM.F, "v = [float(i) * r**float(i-1) * c for (i,c) in list(enumerate(coefs))[1:]]", "v = [float(i) * r**float(i-1) * c for (i,c) in enumerate(coefs)][1:]", 'defined-at-r=0'),
+    (FM.F, "    return A * math.exp(-r/rho)\n\n  def deriv(self, r, A, rho):", "    return buck(r, A,rho,0.0)\n\n  def deriv(self, r, A, rho):", '_bornmayer.__call__/defined-at-r=0'),
     (FM.F, "0.0080015380063920005238*C_10", "0.0080015380163920005238*C_10", '_tang_toennies.deriv'),
     (F_INIT, "deriv_b = gradient(b)\n    def deriv(r):\n      return deriv_a(r) + deriv_b(r)", "deriv_b = gradient(a)\n    def deriv(r):\n      return deriv_a(r) + deriv_b(r)", 'plus'),
 ]
